@@ -1418,7 +1418,13 @@ static WBXMLError parse_content(WBXMLParser *parser, WBXMLBuffer **result)
         if ((ret = parse_opaque(parser, result)) != WBXML_OK)
             return ret;
 
-        return decode_opaque_content(parser, result);
+        if ((ret = decode_opaque_content(parser, result)) != WBXML_OK) {
+            /* Don't leak the opaque buffer: callers only free the result on success */
+            wbxml_buffer_destroy(*result);
+            *result = NULL;
+        }
+
+        return ret;
     }
 
     /* pi */
@@ -2041,7 +2047,13 @@ static WBXMLError parse_attr_value(WBXMLParser  *parser,
         if ((ret = parse_opaque(parser, result)) != WBXML_OK) 
             return ret;
         
-        return decode_opaque_attr_value(parser, result);
+        if ((ret = decode_opaque_attr_value(parser, result)) != WBXML_OK) {
+            /* Don't leak the opaque buffer: callers only free the result on success */
+            wbxml_buffer_destroy(*result);
+            *result = NULL;
+        }
+
+        return ret;
     }
   
   
